@@ -285,6 +285,36 @@ def wall_velocities(rng, h, n):
     return out[:n]
 
 
+GENERIC_KEY = {"energy-flux": "flux-mismatch", "momentum-flux": "flux-mismatch",
+               "fallback": "template-fallback-exact-exists"}
+
+
+def failure_key(h, vw, kind, fallback):
+    """key of a failure class for known_findings.json. Two recorded findings live in the
+    corner vMin == vBracketLow (=1e-3), vw < 1.5 vBracketLow:
+      slow-wall-unconverged-accepted  hybr stalls (status 5) and the absolute acceptance rule
+                                      sum(fun^2) < 1e-6 lets a ~4% flux mismatch through;
+      slow-wall-template-fallback     the v+ bracket starts at vBracketLow, the true v+ is
+                                      below it, the template approximation is returned.
+    The same symptom anywhere else gets the generic key and is a new violation."""
+    corner = h.vMin == h.vBracketLow and vw < 1.5 * h.vBracketLow
+    if corner and fallback and kind in ("energy-flux", "momentum-flux", "fallback", "c1",
+                                        "c2"):
+        return "slow-wall-template-fallback"
+    if corner and not fallback and kind in ("energy-flux", "momentum-flux", "c1", "c2",
+                                            "not-converged"):
+        return "slow-wall-unconverged-accepted"
+    return GENERIC_KEY.get(kind, kind)
+
+
+RECORDED = [   # inputs of the recorded findings, replayed first on every run
+    (dict(kind="2step", abrok=0.2, asym=0.1, musq=0.4, Tn0=0.9, unit=1.0), 0.00101),
+    (dict(kind="2step", abrok=0.2, asym=0.1, musq=0.4, Tn0=0.9, unit=1.0), 0.001),
+    (dict(kind="2step", abrok=0.261, asym=0.148, musq=0.419, Tn0=0.73, unit=25.0),
+     0.0010011),
+]
+
+
 def check_point(ctx, case, th, h, vw, stats=None):
     """evaluate the property at one wall velocity; returns a record (for calibration)"""
     rec = dict(vw=vw)
@@ -390,9 +420,8 @@ def check_point(ctx, case, th, h, vw, stats=None):
         elif not success:
             bad = ("Hydrodynamics.success is False after findMatching(vw=%.6g) inside "
                    "[vMin, 0.99]" % vw, "not-converged")
-    if bad and vw < 1.5 * h.vBracketLow:
-        # one failure class: walls within 50% of the hard-coded lower bracket 1e-3
-        bad = (bad[0], "slow-wall")
+    if bad:
+        bad = (bad[0], failure_key(h, vw, bad[1], spy.fallback))
     if bad:
         label.update(what_fails=bad[0], fluxes=[e1, e2, m1, m2], boundaries=[c1, c2],
                      fallback=spy.fallback, success=bool(success))
@@ -593,6 +622,14 @@ def run(ctx):
     rng = ctx.rng
     stats = []
     # ---- direct validation on the implementation (always) -----------------------------
+    for case, vw in RECORDED:
+        try:
+            th = build_model(case)
+            h = make_hydro(th)
+            check_point(ctx, case, th, h, vw, None)
+        except Exception:
+            ctx.log("recorded input raised", json.dumps(case), traceback.format_exc())
+            ctx.broken.append("harness: recorded input raised")
     nmodels = ctx.n(14, 160)
     nvw = ctx.n(10, 16)
     corr_jobs = []
